@@ -303,19 +303,19 @@ func c06R3(p *core.Program, r *core.Report) {
 	}
 	r.Check(mok, rule, m, "merge overwrites key by key in argument order (later wins)", m.Node().Pos(), "for tags in list { for k, v in tags { merged[k] = v } }", "merge is not a plain keyed overwrite in argument order: precedence of declaration over package over global tags is lost (e.g. first-wins, or values appended)")
 	// package tags: only from file doc comments of the processed package
-	pe := p.FuncByName("pkg/gengo", "(*gengoCtx).pkgExecute")
-	if pe == nil {
-		r.Anchor(rule, "pkg/gengo.(*gengoCtx).pkgExecute")
+	pl := findPipeline(p, r, rule)
+	if pl == nil {
 		return
 	}
+	pe := pl.pkgExec
 	pinfo := pe.Info()
 	stores, good := 0, 0
-	for _, f := range p.Funcs() {
-		if core.RelPkg(f.Pkg.PkgPath) != "pkg/gengo" {
-			continue
-		}
+	for _, f := range pkgUnits(p, "pkg/gengo") {
 		finfo := f.Info()
 		ast.Inspect(f.Body, func(n ast.Node) bool {
+			if lit, isLit := n.(*ast.FuncLit); isLit && lit != f.Lit {
+				return false
+			}
 			as, isAs := n.(*ast.AssignStmt)
 			if !isAs {
 				return true
@@ -325,12 +325,14 @@ func c06R3(p *core.Program, r *core.Report) {
 				if !isIx {
 					continue
 				}
-				fld := core.FieldOf(finfo, ix.X)
+				// the map is the pkgTags field, directly or through an alias (a helper's parameter)
+				me, _ := core.Resolve(finfo, f.Root().Body, ix.X)
+				fld := core.FieldOf(finfo, me)
 				if fld == nil || fld.Name() != "pkgTags" {
 					continue
 				}
 				stores++
-				if f != pe {
+				if f.Root() != pe {
 					continue
 				}
 				// value: tags[k] with tags from ExtractCommentTags(strings.Split(f.Doc.Text(), "\n"))
